@@ -130,7 +130,7 @@ def site_inputs(mm: MetaModel, tau: Dict, cap: int = 400) -> List[Any]:
 
 
 class UnionAnalysis:
-    def __init__(self, live, mm: MetaModel, solve: bool = True, timeout_ms: int = 10000, solvers=("z3", "cvc5")):
+    def __init__(self, live, mm: MetaModel, solve: bool = True, timeout_ms: int = 10000, solvers=("z3", "cvc5"), cross: bool = False):
         self.live, self.mm = live, mm
         t0 = time.time()
         self.decls = all_class_decls(mm)
@@ -144,11 +144,23 @@ class UnionAnalysis:
                 self.results.append(hg.verify_site(live, mm, self.world, self.sources, self.decl_by_name, s))
         self.symex_s = time.time() - t0
         self.solver_s = 0.0
+        self.cross: Dict[str, Any] = {}
         if solve:
             t1 = time.time()
             with cf.ThreadPoolExecutor(max_workers=12) as ex:
                 list(ex.map(lambda r: vc.solve(self.world, r.obligations, solvers=solvers, timeout_ms=timeout_ms) if r.obligations else 0.0, self.results))
             self.solver_s = time.time() - t1
+            import os as _os
+
+            if _os.environ.get("VERIF_TIER") == "thorough" or cross:
+                t2 = time.time()
+
+                def xc(r):
+                    return vc.cross_check(self.world, r.obligations, "cvc5", timeout_ms) if r.obligations else (0, [], 0.0)
+
+                with cf.ThreadPoolExecutor(max_workers=12) as ex:
+                    res = list(ex.map(xc, self.results))
+                self.cross = {"solver": "cvc5", "agree": sum(a for a, d, t in res), "disagree": [x for a, d, t in res for x in d], "wall_s": round(time.time() - t2, 1)}
 
     def missing(self) -> List[hg.UnionSite]:
         return [s for s in self.sites if s.handler_kind == "missing"]
